@@ -5,4 +5,8 @@ PY=/venv/bin/python
 if ! $PY -c 'import hypothesis' 2>/dev/null; then
   /venv/bin/pip install --no-index --find-links /opt/veriftools/wheels --target "$(pwd)/.deps" hypothesis || exit 2
 fi
+# atheris (coverage-guided extra of the thorough tiers): optional, a missing wheel only switches that extra off
+if ! PYTHONPATH="$(pwd)/.deps" $PY -c 'import atheris' 2>/dev/null; then
+  /venv/bin/pip install --no-index --find-links /opt/veriftools/wheels --target "$(pwd)/.deps" atheris >/dev/null 2>&1 || echo "note: atheris not installed"
+fi
 PYTHONPATH="$(pwd)/.deps" $PY -c 'import hypothesis, numpy, scipy, sympy, dill; print("deps ok: hypothesis", hypothesis.__version__)' || exit 2
